@@ -20,6 +20,7 @@ import re
 from fractions import Fraction
 from typing import Any, Dict, List, Optional, Tuple
 
+from engine.srcmatch import U
 from engine.mathobj import NOTIMPL, SLOTS, Dispatcher, Obj, ang_input, from_angle_entries, mat_input, vec_input
 from engine.model import AnalysisError, Program, dotted, resolve_method
 from engine.poly import Opaque, Poly, PolyInterp, normal_form
@@ -67,7 +68,7 @@ def expand_trig_helpers(ctx: Any, mt: Any, qual: str, body: List[ast.stmt]) -> L
         class _Sub(ast.NodeTransformer):
             def visit_Name(self, node: ast.Name) -> ast.AST:
                 if node.id == param:
-                    return ast.copy_location(ast.parse(ast.unparse(call.args[0]), mode='eval').body, node)
+                    return ast.copy_location(ast.parse(U(call.args[0]), mode='eval').body, node)
                 if node.id in locals_:
                     return ast.copy_location(ast.Name(id=f'_{name}_{node.id}', ctx=node.ctx), node)
                 return node
@@ -76,22 +77,22 @@ def expand_trig_helpers(ctx: Any, mt: Any, qual: str, body: List[ast.stmt]) -> L
             if isinstance(hs, ast.If):
                 looks = {x.id for x in ast.walk(hs.test) if isinstance(x, ast.Name)} & trig
                 if looks:
-                    ctx.check('C04.A1', False, mt, hs, f'{qual} takes its sine/cosine from {name}(), which replaces the values it computed when `{ast.unparse(hs.test)[:60]}`: for angles that close to a multiple of 90 degrees the '
+                    ctx.check('C04.A1', False, mt, hs, f'{qual} takes its sine/cosine from {name}(), which replaces the values it computed when `{U(hs.test)[:60]}`: for angles that close to a multiple of 90 degrees the '
                               'matrix is that of the exact multiple, not of the angle given (entries off by up to the threshold; a vector of length 1e6 moves by about 1 unit)', func=name, text=f'{name}: trig values adjusted under a threshold')
                     continue
-                raise AnalysisError(f'{name}: branch `{ast.unparse(hs.test)[:50]}` in a trig helper is not modelled')
+                raise AnalysisError(f'{name}: branch `{U(hs.test)[:50]}` in a trig helper is not modelled')
             if isinstance(hs, ast.Return):
                 ret_expr = hs.value
                 break
             if isinstance(hs, ast.Assign):
-                new = _Sub().visit(ast.parse(ast.unparse(hs)).body[0])
+                new = _Sub().visit(ast.parse(U(hs)).body[0])
                 ast.copy_location(new, st)
                 out.append(ast.fix_missing_locations(new))
                 continue
             raise AnalysisError(f'{name}: statement kind {type(hs).__name__} in a trig helper is not modelled')
         if ret_expr is None:
             raise AnalysisError(f'{name}: no return value')
-        fin = ast.Assign(targets=st.targets, value=_Sub().visit(ast.parse(ast.unparse(ret_expr), mode='eval').body))
+        fin = ast.Assign(targets=st.targets, value=_Sub().visit(ast.parse(U(ret_expr), mode='eval').body))
         ast.copy_location(fin, st)
         out.append(ast.fix_missing_locations(fin))
     return out
@@ -239,7 +240,7 @@ def run(ctx: Any, prog: Program) -> None:
     raw_args: List[Any] = []
 
     def tr_hook(n: ast.Call, a: List[Any]) -> Any:
-        d = ast.unparse(n.func)
+        d = U(n.func)
         if d.endswith('._from_raw'):        # `return type(self)._from_raw(<nine entries in row order>)`: wait for the evaluated arguments
             if len(a) == 9:
                 raw_args[:] = a
@@ -280,7 +281,7 @@ def run(ctx: Any, prog: Program) -> None:
             self.entries = dict(zip(SLOTS, args))
 
     def hook_new(n: ast.Call, a: List[Any]) -> Any:
-        d = ast.unparse(n.func)
+        d = U(n.func)
         if d.endswith('__new__'):
             return Poly.sym('<obj>')
         if d.endswith('._from_raw') and len(a) == 9 and all(isinstance(x, Poly) for x in a):
@@ -490,7 +491,7 @@ def a9_operator_purity(ctx: Any, mt: Any) -> None:
                                                  and c.func.attr in ('append', 'add', 'update', 'setdefault', 'pop', 'clear', '__setitem__'))
                       or (isinstance(c, ast.Assign) and any(isinstance(t, ast.Subscript) and isinstance(t.value, ast.Name) and t.value.id in mutable_globals for t in c.targets))]
             bad = (globs or stores)
-            ctx.check('C04.A9', not bad, mt, bad[0] if bad else fn, (f'{q} is on the path of a rotation operator and writes module-level state (`{ast.unparse(bad[0])[:60]}`): what an operator returns then depends on '
+            ctx.check('C04.A9', not bad, mt, bad[0] if bad else fn, (f'{q} is on the path of a rotation operator and writes module-level state (`{U(bad[0])[:60]}`): what an operator returns then depends on '
                       'earlier calls - a matrix remembered for an Angle object is stale once that object is modified in place, so `v @ ang` differs from `v @ Matrix.from_angle(ang)`') if bad else 'no module-level state written',
                       func=q, text=f'{q}: no module-level state')
     if n < 10:
@@ -550,7 +551,7 @@ def a10_no_component_addition(ctx: Any, mt: Any) -> None:
                 return out
             alts = guard.values if isinstance(guard, ast.BoolOp) and isinstance(guard.op, ast.Or) else [guard]
             bad_alt = [a for a in alts if not {(second, 'pitch'), (second, 'roll')} <= zero_facts(a)]
-            ctx.check('C04.A10', not bad_alt, mt, sums[0], (f'{q} adds the components of `{sorted(names)[0]}` and `{sorted(names)[1]}` when `{ast.unparse(bad_alt[0])[:60]}`, which does not make `{second}` (the rotation applied second) a pure yaw: '
+            ctx.check('C04.A10', not bad_alt, mt, sums[0], (f'{q} adds the components of `{sorted(names)[0]}` and `{sorted(names)[1]}` when `{U(bad_alt[0])[:60]}`, which does not make `{second}` (the rotation applied second) a pure yaw: '
                       'a yaw applied FIRST does not commute with the later pitch/roll, e.g. Angle(0, 90, 0) @ Angle(45, 0, 0) is Angle(0, 90, 45), not Angle(45, 90, 0)') if bad_alt else 'shortcut only for a pure-yaw second rotation',
                       func=q, text=f'{q}: component-wise addition guarded')
     if n_fn < 3:
@@ -582,7 +583,7 @@ def a8_pivoting(ctx: Any, mt: Any) -> None:
         e = defs.get(e.id, e) if isinstance(e, ast.Name) else e
         return isinstance(e, ast.Call) and dotted(e.func) in ('abs', 'math.fabs')
     running_max = (isinstance(t, ast.Compare) and len(t.ops) == 1 and isinstance(t.ops[0], (ast.Gt, ast.GtE)) and is_abs(t.left) and isinstance(t.comparators[0], ast.Name)
-                   and any(isinstance(a, ast.Assign) and any(dotted(tt) == t.comparators[0].id for tt in a.targets) and ast.unparse(a.value) == ast.unparse(t.left) for a in g.body)
+                   and any(isinstance(a, ast.Assign) and any(dotted(tt) == t.comparators[0].id for tt in a.targets) and U(a.value) == U(t.left) for a in g.body)
                    and not any(isinstance(b, ast.Break) for b in ast.walk(g)))
     if running_max:
         ctx.check('C04.A8', True, mt, g, 'running maximum of |entry|', func='MatrixBase.inverse', text='pivot selection')
@@ -590,10 +591,10 @@ def a8_pivoting(ctx: Any, mt: Any) -> None:
     first_hit = any(isinstance(b, ast.Break) for b in g.body) or not any(isinstance(c, ast.Compare) and any(isinstance(x, ast.Name) and x.id not in (dotted(lp.target),) and x.id in defs or False for x in ast.walk(c)) for c in [t])
     nonzero_test = (isinstance(t, ast.Compare) and len(t.ops) == 1 and isinstance(t.ops[0], (ast.NotEq, ast.Gt)) and isinstance(t.comparators[0], ast.Constant)) or isinstance(t, (ast.Subscript, ast.Name, ast.Call))
     if nonzero_test and first_hit:
-        ctx.check('C04.A8', False, mt, g, f'inverse() takes the first row whose entry satisfies `{ast.unparse(t)}` as pivot instead of the entry of largest magnitude: a tiny but non-zero entry (float noise such as cos(90 deg) = 6e-17, '
+        ctx.check('C04.A8', False, mt, g, f'inverse() takes the first row whose entry satisfies `{U(t)}` as pivot instead of the entry of largest magnitude: a tiny but non-zero entry (float noise such as cos(90 deg) = 6e-17, '
                   'or a genuinely small cosine) is accepted although a usable pivot exists below it, and the final `abs(v) <= 0.00001` test then rejects a perfectly invertible rotation', func='MatrixBase.inverse', text='pivot selection')
         return
-    ctx.shape('C04.A8', False, mt, g, f'pivot selection test `{ast.unparse(t)}` is not an enumerated form', func='MatrixBase.inverse', text='pivot selection')
+    ctx.shape('C04.A8', False, mt, g, f'pivot selection test `{U(t)}` is not an enumerated form', func='MatrixBase.inverse', text='pivot selection')
 
 
 def _alias_hazard(fn: ast.AST, params: List[str]) -> Optional[Tuple[str, str, str, ast.AST]]:
@@ -740,9 +741,9 @@ def a7_alias_safety(ctx: Any, prog: Program, mt: Any, pyx: Any) -> None:
                         t_fresh = isinstance(a_t, ast.Name) and a_t.id in fresh
                         s_fresh = isinstance(a_s, ast.Call) or (isinstance(a_s, ast.Name) and a_s.id in fresh)
                         ok = not same and (t_fresh or s_fresh)
-                        ctx.check('C04.A7', ok, mt, c, f'{cq} calls {name}() with `{ast.unparse(a_t) if a_t else "?"}` as the object being written and `{ast.unparse(a_s) if a_s else "?"}` as the one being read; {qual} reads '
+                        ctx.check('C04.A7', ok, mt, c, f'{cq} calls {name}() with `{U(a_t) if a_t else "?"}` as the object being written and `{U(a_s) if a_s else "?"}` as the one being read; {qual} reads '
                                   f'{src}.{field} after writing {tgt}.{field}, so if both are the same object (x @= x) the result is wrong - pass a fresh copy or make the kernel compute before it assigns',
-                                  func=cq, text=f'{cq}: {name}({ast.unparse(a_s) if a_s else "?"}) on {ast.unparse(a_t) if a_t else "?"}')
+                                  func=cq, text=f'{cq}: {name}({U(a_s) if a_s else "?"}) on {U(a_t) if a_t else "?"}')
         ctx.shape('C04.A7', sites > 0, mt, fn, f'alias-unsafe kernel {qual} has no recognisable call site', func=qual, text=f'{qual} call sites')
     n_ip = 0
     for qual, fns in mt.all_funcs().items():
@@ -796,7 +797,7 @@ def analyse_to_angle(ctx: Any, rule: str, relpath: str, qual: str, body: List[as
     tests: List[ast.AST] = []
 
     def branch(test: ast.AST) -> List[bool]:
-        thresholds.append(ast.unparse(test))
+        thresholds.append(U(test))
         tests.append(test)
         return [True, False]
     sqrt_defs: Dict[str, Poly] = {}
